@@ -109,16 +109,23 @@ def execute(w, op):
         w.violate(getattr(d, "timeout_owner", ()), "timeout:" + op["op"], "operation exceeded %.1fs CPU" % w.wd.seconds)
         raise Diverged("timeout")
     with w.seams.observing():
-        exp = d.model(w, op, out)
         rec = {"op": op["op"], "out": out.canon()}
         sub = op.get("method")
         if sub:
             rec["method"] = sub
         w.event(rec)
-        if exp is not None:
-            msg = mismatch(out, exp)
-            if msg:
-                w.violate(exp.owner, "refine:%s%s" % (op["op"], (":" + sub) if sub else ""), msg + " op=%r" % (op,))
+        try:
+            exp = d.model(w, op, out)
+            if exp is not None:
+                msg = mismatch(out, exp)
+                if msg:
+                    w.violate(exp.owner, "refine:%s%s" % (op["op"], (":" + sub) if sub else ""), msg + " op=%r" % (op,))
+        except Diverged as dv:
+            # Not the business of the property under check. The run is cut
+            # short, but only AFTER that property's own live-structure scans
+            # had their look at this state (the reference model may be out of
+            # step now, so model-based oracles are skipped).
+            w.deferred = dv
     return out
 
 
@@ -140,3 +147,12 @@ def mismatch(out, exp):
     if out.value != exp.value:
         return "result %r, expected %r" % (out.value, exp.value)
     return None
+
+
+def execute_strict(w, op):
+    """execute(), and cut the run at once on a divergence that is not the
+    business of the property under check (profiles with their own run loop)."""
+    out = execute(w, op)
+    if w.deferred is not None:
+        raise w.deferred
+    return out
